@@ -271,6 +271,12 @@ func (x *Exec) nilCheck(st *State, p PtrV, in ssa.Instruction, what string) {
 	if g.IsTrue() {
 		return
 	}
+	if x.contract != nil && x.contract.HeapNonNil && p.Obj.Op == "select" {
+		// sweep contract: a pointer read from memory is assumed non-nil (listed as an assumption)
+		x.notes["pointers and interfaces loaded from memory are assumed non-nil (heapnonnil sweep contract)"] = true
+		st.assume(g)
+		return
+	}
 	fr := st.frameTop()
 	detail := what
 	if s := x.srcText(fr.fn, in.Pos(), "sel"); s != "" {
@@ -628,6 +634,10 @@ func (x *Exec) unop(st *State, v *ssa.UnOp) Value {
 		x.nilCheck(st, p, v, "load")
 		r := x.load(st, p)
 		if g, ok := v.X.(*ssa.Global); ok {
+			if iv, isIface := r.(IfaceV); isIface && x.globalErrNonNil(g) {
+				st.assume(b.Ne(iv.Typ, b.Int(0)))
+				x.notes["package-level error variables initialised by errors.New and never reassigned are non-nil"] = true
+			}
 			if sv, isSlice := r.(SliceV); isSlice {
 				if n := x.globalSliceLen(g); n >= 0 {
 					// package-level table initialised by a composite literal and never reassigned
@@ -1257,45 +1267,8 @@ func (x *Exec) globalSliceLen(g *ssa.Global) int64 {
 	if g.Pkg == nil {
 		return n
 	}
-	// any store to the global outside init?
-	for _, m := range g.Pkg.Members {
-		fn, ok := m.(*ssa.Function)
-		if !ok {
-			continue
-		}
-		fns := append([]*ssa.Function{fn}, fn.AnonFuncs...)
-		for _, f := range fns {
-			if f.Name() == "init" || strings.HasPrefix(f.Name(), "init#") {
-				continue
-			}
-			for _, blk := range f.Blocks {
-				for _, in := range blk.Instrs {
-					if st, ok := in.(*ssa.Store); ok && st.Addr == ssa.Value(g) {
-						return n
-					}
-				}
-			}
-		}
-	}
-	for _, mem := range g.Pkg.Members {
-		if t, ok := mem.(*ssa.Type); ok {
-			for _, tt := range []types.Type{t.Type(), types.NewPointer(t.Type())} {
-				ms := x.prog.Prog.MethodSets.MethodSet(tt)
-				for i := 0; i < ms.Len(); i++ {
-					f := x.prog.Prog.MethodValue(ms.At(i))
-					if f == nil {
-						continue
-					}
-					for _, blk := range f.Blocks {
-						for _, in := range blk.Instrs {
-							if st, ok := in.(*ssa.Store); ok && st.Addr == ssa.Value(g) {
-								return n
-							}
-						}
-					}
-				}
-			}
-		}
+	if x.prog.globalMutated(g) {
+		return n
 	}
 	pp := x.prog.PPkgs[g.Pkg.Pkg.Path()]
 	if pp == nil {
@@ -1329,4 +1302,83 @@ func (x *Exec) globalSliceLen(g *ssa.Global) int64 {
 		}
 	}
 	return n
+}
+
+// globalMutated reports whether anything in the loaded program other than the initialiser of the
+// global's package stores to the global or takes its address (any use that is not a plain load).
+func (p *Program) globalMutated(g *ssa.Global) bool {
+	p.globOnce.Do(func() {
+		p.globMut = map[*ssa.Global]bool{}
+		for _, f := range p.funcs {
+			isInit := f.Name() == "init" || strings.HasPrefix(f.Name(), "init#")
+			for _, blk := range f.Blocks {
+				for _, in := range blk.Instrs {
+					for _, op := range in.Operands(nil) {
+						gg, ok := (*op).(*ssa.Global)
+						if !ok {
+							continue
+						}
+						switch v := in.(type) {
+						case *ssa.UnOp:
+							if v.Op == token.MUL {
+								continue
+							}
+						case *ssa.Store:
+							if v.Addr == ssa.Value(gg) && isInit && f.Pkg == gg.Pkg {
+								continue
+							}
+						case *ssa.DebugRef:
+							continue
+						}
+						p.globMut[gg] = true
+					}
+				}
+			}
+		}
+	})
+	return p.globMut[g]
+}
+
+// globalErrNonNil: a package-level variable declared "var X = errors.New(...)" (or fmt.Errorf) that
+// nothing reassigns holds a non-nil error.
+func (x *Exec) globalErrNonNil(g *ssa.Global) bool {
+	if v, ok := x.globErr[g]; ok {
+		return v
+	}
+	r := false
+	defer func() { x.globErr[g] = r }()
+	if g.Pkg == nil || x.prog.globalMutated(g) {
+		return r
+	}
+	pp := x.prog.PPkgs[g.Pkg.Pkg.Path()]
+	if pp == nil {
+		return r
+	}
+	for _, f := range pp.Syntax {
+		for _, d := range f.Decls {
+			gd, ok := d.(*ast.GenDecl)
+			if !ok || gd.Tok != token.VAR {
+				continue
+			}
+			for _, sp := range gd.Specs {
+				vs := sp.(*ast.ValueSpec)
+				for i, nm := range vs.Names {
+					if nm.Name != g.Name() || i >= len(vs.Values) {
+						continue
+					}
+					if ce, ok := vs.Values[i].(*ast.CallExpr); ok {
+						if se, ok := ce.Fun.(*ast.SelectorExpr); ok {
+							if id, ok := se.X.(*ast.Ident); ok {
+								full := id.Name + "." + se.Sel.Name
+								if full == "errors.New" || full == "fmt.Errorf" {
+									r = true
+								}
+							}
+						}
+					}
+				}
+			}
+		}
+	}
+	return r
 }
